@@ -55,6 +55,11 @@ type Config struct {
 	// Spawned: this thread has started another thread (control state; only used for thread 0,
 	// whose accesses before its first spawn are initialisation and cannot race)
 	Spawned bool
+	// NSpawn: number of threads this thread has spawned so far (control state; orders this
+	// thread's earlier accesses before everything its later children do)
+	NSpawn int
+	// SpawnMask: the set of threads (bit per thread id, ids < 64) this thread has spawned so far
+	SpawnMask uint64
 }
 
 func (f *Frame) clone() *Frame {
@@ -68,7 +73,7 @@ func (f *Frame) clone() *Frame {
 }
 
 func (c *Config) clone() *Config {
-	n := &Config{Th: c.Th, Status: c.Status, G: c.G, Spawned: c.Spawned, Gate: c.Gate}
+	n := &Config{Th: c.Th, Status: c.Status, G: c.G, Spawned: c.Spawned, Gate: c.Gate, NSpawn: c.NSpawn, SpawnMask: c.SpawnMask}
 	for _, f := range c.Frames {
 		n.Frames = append(n.Frames, f.clone())
 	}
@@ -94,7 +99,7 @@ func loopsSig(l map[int]int) string {
 
 func (c *Config) key() string {
 	var sb strings.Builder
-	fmt.Fprintf(&sb, "T%d S%d%v ", c.Th, c.Status, c.Spawned)
+	fmt.Fprintf(&sb, "T%d S%d n%x ", c.Th, c.Status, c.SpawnMask)
 	if len(c.Frames) > 0 {
 		f := c.Frames[len(c.Frames)-1]
 		fmt.Fprintf(&sb, "%s@%d.%d%s", f.ID, f.Blk, f.Idx, loopsSig(f.Loops))
@@ -137,10 +142,12 @@ type path struct {
 	carry  []*Config // configs of other threads already parked in this joint macro-step
 	ghost  int
 	probe  bool // evaluating enabledness only: no side effects
+	// base: the register snapshot of the configuration that was fired (read-only)
+	base map[regKey]Value
 }
 
 func (p *path) fork(m *M, g *smt.Term) *path {
-	n := &path{cfg: p.cfg.clone(), g: m.c.And(p.g, g), ov: p.ov.clone(), first: p.first, ghost: p.ghost}
+	n := &path{cfg: p.cfg.clone(), g: m.c.And(p.g, g), ov: p.ov.clone(), first: p.first, ghost: p.ghost, base: p.base}
 	n.spawns = append([]*Config(nil), p.spawns...)
 	n.carry = append([]*Config(nil), p.carry...)
 	return n
@@ -153,7 +160,16 @@ type Violation struct {
 	G    *smt.Term
 }
 
+// thrAcc summarises the accesses of one thread to one cell.
+type thrAcc struct {
+	write    bool
+	maxSpawn int    // largest number of children the thread had spawned at an access
+	spawned  uint64 // union over the accesses of the children already spawned at the access
+	overflow bool   // a child with id >= 64 was spawned before an access
+}
+
 type accInfo struct {
+	per       map[int]*thrAcc
 	threads   map[int]bool
 	write     bool
 	plain     bool
@@ -171,6 +187,8 @@ type FireRec struct {
 	Pos  string
 	Op   string
 	G    *smt.Term
+	// Deferred: the pending operation is a deferred call (P is the position of the defer statement)
+	Deferred bool
 }
 
 // EnvRec: the environment cancels context Ctx at step Step (when G holds in the model).
@@ -185,13 +203,18 @@ type Thread struct {
 	Name   string
 	Parent int
 	Site   string
+	// ChildIdx: how many threads the parent had spawned before this one (minimum over paths)
+	ChildIdx int
 }
 
 type M struct {
 	c    *smt.Ctx
 	prog *ssa.Program
 
-	regs  map[regKey]Value
+	// snap: per control configuration, the values of the registers that are live there
+	// (registers are not shared between configurations, so values of different loop iterations
+	// or call paths are never merged)
+	snap  map[string]map[regKey]Value
 	mem   map[Addr]Value
 	leafT map[Addr]types.Type
 
@@ -242,10 +265,18 @@ type M struct {
 	ctxType, errType types.Type
 
 	Stats    struct{ Firings, Cfgs, MaxLive int }
+	chanElem  map[Addr]types.Type
+	chanMulti map[Addr]bool
 	EnvLog   []EnvRec
 	EnvOwner map[Addr][2]int // context object -> (thread, occurrence) of the vrt.CancelAnytime call that armed it
+	// MaxPreempt >= 0 bounds the number of preemptions (switching away from a thread that could
+	// still move) in the schedules considered; -1 = unbounded
+	MaxPreempt int
+	preCnt     *smt.Term // running preemption count (8 bit)
+	prevCk     *smt.Term
 	Single   bool            // the previous round saw one thread only: lock operations are invisible
 	MaxTerms int             // cap on the number of terms (0 = none)
+	funcFile map[string]bool // source files of those functions
 	funcs    map[string]bool // functions entered by the interpreter in the final round
 	stubs    map[string]bool // environment models exercised
 	cfgSeen  map[string]bool // distinct (thread, control configuration) keys encoded
@@ -266,7 +297,7 @@ func NewM(prog *ssa.Program, U, K int) *M {
 
 func (m *M) reset() {
 	m.c = smt.New()
-	m.regs = map[regKey]Value{}
+	m.snap = map[string]map[regKey]Value{}
 	m.mem = map[Addr]Value{}
 	m.leafT = map[Addr]types.Type{}
 	m.nextAddr = 16
@@ -316,8 +347,13 @@ func (m *M) reset() {
 	m.FireLog = nil
 	m.FinalLog = nil
 	m.EnvOwner = map[Addr][2]int{}
+	m.chanElem = map[Addr]types.Type{}
+	m.chanMulti = map[Addr]bool{}
 	m.EnvLog = nil
+	m.preCnt = nil
+	m.prevCk = nil
 	m.funcs = map[string]bool{}
+	m.funcFile = map[string]bool{}
 	m.stubs = map[string]bool{}
 	m.cfgSeen = map[string]bool{}
 }
@@ -355,7 +391,7 @@ func (m *M) newThread(key, name string) int {
 		return id
 	}
 	id := len(m.threads)
-	m.threads = append(m.threads, &Thread{Key: key, Name: name, Parent: -1})
+	m.threads = append(m.threads, &Thread{Key: key, Name: name, Parent: -1, ChildIdx: 1 << 30})
 	m.thrTab[key] = id
 	m.live = append(m.live, map[string]*Config{})
 	return id
@@ -412,7 +448,7 @@ func (m *M) loopInfo(fn *ssa.Function) map[int]map[int]bool {
 func (m *M) Run(entry *ssa.Function) error {
 	t0 := m.newThread("main", "main")
 	fr := &Frame{Fn: entry, ID: "T0:" + entry.Name(), Loops: map[int]int{}}
-	m.funcs[entry.String()] = true
+	m.noteFunc(entry)
 	cfg := &Config{Th: t0, Frames: []*Frame{fr}, Status: stStart, G: m.c.T}
 	m.live[t0][cfg.key()] = cfg
 	for k := 0; k < m.K; k++ {
@@ -448,6 +484,7 @@ func (m *M) step(k int) (err error) {
 	m.Sched = append(m.Sched, ck)
 	var results []*result
 	var fires, enabledAny []*smt.Term
+	enT := map[int][]*smt.Term{} // per thread: enabled configurations
 	var monitors []*Config
 	next := make([]map[string]*Config, len(m.live))
 	addNext := func(cfg *Config, g *smt.Term) {
@@ -512,6 +549,7 @@ func (m *M) step(k int) (err error) {
 			fire := m.c.And(cfg.G, sel, en)
 			addNext(cfg, m.c.And(cfg.G, m.c.Not(m.c.And(sel, en))))
 			enabledAny = append(enabledAny, m.c.And(cfg.G, en))
+			enT[t] = append(enT[t], m.c.And(cfg.G, en))
 			if fire.IsFalse() {
 				continue
 			}
@@ -520,13 +558,21 @@ func (m *M) step(k int) (err error) {
 			{
 				pos, op := "start", "start"
 				var tp token.Pos
+				isDef := false
 				if cfg.Status == stRun {
 					in := m.curInstr(cfg)
 					pos, op, tp = m.pos(in), in.String(), in.Pos()
+					if _, ok := in.(*ssa.RunDefers); ok {
+						if fr := m.top(cfg); len(fr.Defers) > 0 {
+							d := fr.Defers[len(fr.Defers)-1].Instr
+							tp, isDef = d.Pos(), true
+							pos, op = m.pos(d), "deferred "+d.Common().String()
+						}
+					}
 				}
-				m.FireLog = append(m.FireLog, FireRec{tp, k, t, m.threads[t].Name, pos, op, fire})
+				m.FireLog = append(m.FireLog, FireRec{P: tp, Step: k, Th: t, Name: m.threads[t].Name, Pos: pos, Op: op, G: fire, Deferred: isDef})
 			}
-			p := &path{cfg: cfg.clone(), g: fire, ov: newOv(), first: true}
+			p := &path{cfg: cfg.clone(), g: fire, ov: newOv(), first: true, base: m.snap[key]}
 			t0n, r0n := m.c.NumTerms(), len(results)
 			npaths := m.runMacro(p, &results)
 			if m.Verbose && m.c.NumTerms()-t0n > 20000 {
@@ -551,7 +597,7 @@ func (m *M) step(k int) (err error) {
 				}
 				fr := m.top(cfg)
 				in := m.curInstr(cfg)
-				pp := &path{cfg: cfg, g: m.c.T, ov: newOv(), probe: true}
+				pp := &path{cfg: cfg, g: m.c.T, ov: newOv(), probe: true, base: m.snap[cfg.key()]}
 				switch x := in.(type) {
 				case *ssa.Store:
 					if s, ok := m.get(pp, fr, x.Addr).(*VSet); ok {
@@ -603,7 +649,7 @@ func (m *M) step(k int) (err error) {
 			fires = append(fires, fire)
 			m.Stats.Firings++
 			m.FireLog = append(m.FireLog, FireRec{Step: k, Th: t, Name: m.threads[t].Name, Pos: "start", Op: "start(quiescence)", G: fire})
-			p := &path{cfg: cfg.clone(), g: fire, ov: newOv(), first: true}
+			p := &path{cfg: cfg.clone(), g: fire, ov: newOv(), first: true, base: m.snap[cfg.key()]}
 			m.runMacro(p, &results)
 		}
 	}
@@ -615,6 +661,28 @@ func (m *M) step(k int) (err error) {
 		fmt.Printf("step %d: live=%d firings=%d terms=%d\n", k, nlive, len(fires), m.c.NumTerms())
 	}
 	quiescent := m.c.Not(m.c.Or(enabledAny...))
+	if m.MaxPreempt >= 0 && sole < 0 {
+		// preemption at this step: the thread of the previous step could still move, and
+		// another thread is scheduled
+		if m.preCnt == nil {
+			m.preCnt = m.c.BV(0, 8)
+		}
+		if m.prevCk != nil {
+			var ps []*smt.Term
+			for t, ens := range enT {
+				tt := m.c.BV(int64(t), 8)
+				ps = append(ps, m.c.And(m.c.Eq(m.prevCk, tt), m.c.Not(m.c.Eq(ck, tt)), m.c.Or(ens...)))
+			}
+			pre := m.c.And(m.c.Or(ps...), m.c.Not(quiescent))
+			m.preCnt = m.c.BinBV("bvadd", m.preCnt, m.c.Ite(pre, m.c.BV(1, 8), m.c.BV(0, 8)))
+			m.Assumes = append(m.Assumes, m.c.Cmp("bvule", m.preCnt, m.c.BV(int64(m.MaxPreempt), 8)))
+		}
+	}
+	if sole >= 0 {
+		m.prevCk = m.c.BV(int64(sole), 8)
+	} else {
+		m.prevCk = ck
+	}
 	m.Assumes = append(m.Assumes, m.c.Or(quiescent, m.c.Or(fires...)))
 	m.Assumes = append(m.Assumes, m.c.Implies(quiescent, m.c.Eq(ck, m.c.BV(0, 8))))
 
@@ -629,7 +697,7 @@ func (m *M) step(k int) (err error) {
 			}
 			k := sb.String()
 			if old, ok := idx[k]; ok {
-				a := &path{g: old.g, ov: old.ov}
+				a := &path{g: old.g, ov: old.ov} // results carry all their live registers: no base
 				m.mergePaths(a, &path{g: r.g, ov: r.ov})
 				old.g = a.g
 			} else {
@@ -645,19 +713,55 @@ func (m *M) step(k int) (err error) {
 		g *smt.Term
 		v Value
 	}
-	pendR := map[regKey][]gv{}
 	pendM := map[Addr][]gv{}
-	var rkeys []regKey
 	var mkeys []Addr
+	// next snapshots: a configuration that stays live keeps its registers; every result adds
+	// (under its guard) the registers of the configurations it parks
+	nextSnap := map[string]map[regKey]Value{}
+	for t := range next {
+		for key := range next[t] {
+			if old, ok := m.snap[key]; ok {
+				nextSnap[key] = old
+			}
+		}
+	}
+	owned := map[string]bool{} // snapshots already copied in this step (copy on write)
+	nregs := 0
 	for _, r := range results {
 		for _, cf := range r.cfgs {
 			addNext(cf, r.g)
 		}
-		for key, v := range r.ov.regs {
-			if _, ok := pendR[key]; !ok {
-				rkeys = append(rkeys, key)
+		for _, cf := range r.cfgs {
+			key := cf.key()
+			frames := map[string]bool{}
+			for _, f := range cf.Frames {
+				frames[f.ID] = true
 			}
-			pendR[key] = append(pendR[key], gv{r.g, v})
+			dst := nextSnap[key]
+			if !owned[key] {
+				cp := make(map[regKey]Value, len(dst)+8)
+				for k, v := range dst {
+					cp[k] = v
+				}
+				dst = cp
+				nextSnap[key] = dst
+				owned[key] = true
+			}
+			for rk, v := range r.ov.regs {
+				if !frames[frameBase(rk.frame)] {
+					continue
+				}
+				nregs++
+				if old, ok := dst[rk]; ok && !sameValue(old, v) {
+					if !m.compatible(v, old) {
+						dst[rk] = v
+					} else {
+						dst[rk] = m.merge(r.g, v, old)
+					}
+				} else {
+					dst[rk] = v
+				}
+			}
 		}
 		for a, v := range r.ov.mem {
 			if _, ok := pendM[a]; !ok {
@@ -684,13 +788,6 @@ func (m *M) step(k int) (err error) {
 		}
 		return out
 	}
-	for _, key := range rkeys {
-		cur := m.regs[key]
-		for _, x := range group(pendR[key]) {
-			cur = m.merge(x.g, x.v, cur)
-		}
-		m.regs[key] = cur
-	}
 	for _, a := range mkeys {
 		cur := m.memGet(nil, a)
 		for _, x := range group(pendM[a]) {
@@ -698,6 +795,7 @@ func (m *M) step(k int) (err error) {
 		}
 		m.mem[a] = cur
 	}
+	rkeys := make([]int, nregs)
 	if m.Verbose {
 		fmt.Printf("   fold: +%d terms (%d results, %d regs, %d cells)\n", m.c.NumTerms()-nBeforeFold, len(results), len(rkeys), len(mkeys))
 	}
@@ -745,6 +843,20 @@ func (m *M) step(k int) (err error) {
 		}
 		m.live[t] = next[t]
 	}
+	// keep the snapshots of live configurations only
+	for key := range nextSnap {
+		alive := false
+		for t := range next {
+			if _, ok := next[t][key]; ok {
+				alive = true
+				break
+			}
+		}
+		if !alive {
+			delete(nextSnap, key)
+		}
+	}
+	m.snap = nextSnap
 	return nil
 }
 
@@ -783,7 +895,14 @@ func (m *M) final() {
 		for _, cfg := range m.live[t] {
 			if cfg.Status == stRun {
 				in := m.curInstr(cfg)
-				m.FinalLog = append(m.FinalLog, FireRec{P: in.Pos(), Step: m.K, Th: t, Name: m.threads[t].Name, Pos: m.pos(in), Op: in.String(), G: cfg.G})
+				fr := FireRec{P: in.Pos(), Step: m.K, Th: t, Name: m.threads[t].Name, Pos: m.pos(in), Op: in.String(), G: cfg.G}
+				if _, ok := in.(*ssa.RunDefers); ok {
+					if f := m.top(cfg); len(f.Defers) > 0 {
+						d := f.Defers[len(f.Defers)-1].Instr
+						fr.P, fr.Deferred, fr.Pos, fr.Op = d.Pos(), true, m.pos(d), "deferred "+d.Common().String()
+					}
+				}
+				m.FinalLog = append(m.FinalLog, fr)
 			}
 		}
 	}
@@ -829,6 +948,19 @@ func (m *M) record(p *path, a Addr, write, plain bool, instr ssa.Instruction) {
 		m.acc[a] = ai
 	}
 	ai.threads[p.cfg.Th] = true
+	if ai.per == nil {
+		ai.per = map[int]*thrAcc{}
+	}
+	ta := ai.per[p.cfg.Th]
+	if ta == nil {
+		ta = &thrAcc{}
+		ai.per[p.cfg.Th] = ta
+	}
+	ta.write = ta.write || write
+	if p.cfg.NSpawn > ta.maxSpawn {
+		ta.maxSpawn = p.cfg.NSpawn
+	}
+	ta.spawned |= p.cfg.SpawnMask
 	ai.write = ai.write || write
 	ai.plain = ai.plain || plain
 	if instr != nil {
@@ -850,6 +982,30 @@ func (m *M) record(p *path, a Addr, write, plain bool, instr ssa.Instruction) {
 	}
 }
 
+// Hints: names of shared cells / TryLock'ed mutexes found by an earlier run of the same harness.
+// They only seed the fixpoint (a superset of the truly shared cells is still sound: it adds
+// interleavings); the fixpoint still runs until a full round discovers nothing new.
+func (m *M) Hints() (shared, try []string) {
+	for k := range m.sharedName {
+		shared = append(shared, k)
+	}
+	for k := range m.tryMutex {
+		try = append(try, k)
+	}
+	sort.Strings(shared)
+	sort.Strings(try)
+	return
+}
+
+func (m *M) SetHints(shared, try []string) {
+	for _, k := range shared {
+		m.sharedName[k] = true
+	}
+	for _, k := range try {
+		m.tryMutex[k] = true
+	}
+}
+
 func (m *M) cellName(a Addr) string {
 	base := m.blockOf[a]
 	return fmt.Sprintf("%s+%d", m.blockKey[base], int(a-base))
@@ -860,14 +1016,58 @@ func (m *M) SharedUpdate() bool {
 	grew := m.tryGrew
 	m.tryGrew = false
 	for a, ai := range m.acc {
-		if len(ai.threads) >= 2 && ai.write && len(ai.lockset) == 0 && !m.shared[a] {
+		if len(ai.threads) >= 2 && ai.write && len(ai.lockset) == 0 && !m.shared[a] && m.concurrent(ai) {
 			m.shared[a] = true
+			if m.Verbose {
+				fmt.Printf("  round %d: cell %d (%s) becomes shared:", m.Round, a, m.cellName(a))
+				for th, ta := range ai.per {
+					fmt.Printf(" T%d(%s par T%d idx %d w=%v maxSpawn=%d)", th, m.threads[th].Name, m.threads[th].Parent, m.threads[th].ChildIdx, ta.write, ta.maxSpawn)
+				}
+				fmt.Println()
+			}
 			base := m.blockOf[a]
 			m.sharedName[fmt.Sprintf("%s+%d", m.blockKey[base], int(a-base))] = true
 			grew = true
 		}
 	}
 	return grew
+}
+
+// spawnOrdered: are all accesses of thread a ordered before everything thread b does, because b
+// descends from a child that a spawned after its last access?
+func (m *M) spawnOrdered(a, b int, ta *thrAcc) bool {
+	// walk up from b to the child of a on the path
+	x := b
+	for depth := 0; depth < 64; depth++ {
+		par := m.threads[x].Parent
+		if par < 0 {
+			return false
+		}
+		if par == a {
+			if x >= 64 {
+				return ta.maxSpawn == 0
+			}
+			return ta.spawned&(1<<uint(x)) == 0
+		}
+		x = par
+	}
+	return false
+}
+
+// concurrent: is there a pair of conflicting accesses that is not ordered by thread creation?
+func (m *M) concurrent(ai *accInfo) bool {
+	for a, ta := range ai.per {
+		for b, tb := range ai.per {
+			if a >= b || !(ta.write || tb.write) {
+				continue
+			}
+			if m.spawnOrdered(a, b, ta) || m.spawnOrdered(b, a, tb) {
+				continue
+			}
+			return true
+		}
+	}
+	return false
 }
 
 func (m *M) isShared(p *path, s *VSet) bool {
@@ -1046,6 +1246,35 @@ func (m *M) FuncList() []string {
 	return out
 }
 
+func (m *M) noteFunc(fn *ssa.Function) {
+	if m.funcs[fn.String()] {
+		return
+	}
+	m.funcs[fn.String()] = true
+	if fn.Pos().IsValid() {
+		m.funcFile[m.prog.Fset.Position(fn.Pos()).Filename] = true
+	}
+}
+
+// FileList returns the source files of the functions that were symbolically executed.
+func (m *M) FileList() []string {
+	seen := map[string]bool{}
+	for _, pk := range m.prog.AllPackages() {
+		for _, mem := range pk.Members {
+			_ = mem
+		}
+	}
+	var out []string
+	for f := range m.funcFile {
+		if !seen[f] && f != "" {
+			seen[f] = true
+			out = append(out, f)
+		}
+	}
+	sort.Strings(out)
+	return out
+}
+
 // StubList returns the environment models (intrinsics) that were exercised.
 func (m *M) StubList() []string {
 	var out []string
@@ -1067,6 +1296,9 @@ func (m *M) DumpShared() {
 		}
 		sort.Strings(ps)
 		fmt.Printf("  shared cell %d (%s) threads=%d plain=%v write=%v at %v\n", a, m.leafT[a], len(ai.threads), ai.plain, ai.write, ps)
+		for th, ta := range ai.per {
+			fmt.Printf("      T%d (%s parent T%d childidx %d): write=%v maxSpawn=%d\n", th, m.threads[th].Name, m.threads[th].Parent, m.threads[th].ChildIdx, ta.write, ta.maxSpawn)
+		}
 	}
 }
 
